@@ -319,6 +319,113 @@ Definition direct (a_as a_addr n : N) : rres :=
 
 End WithCallback.
 
+(** * The same code with the in-buffer offset computed in [off_bits] bits
+
+    [off_bits = 64] is the code ([addr->addr - buf->addr.addr] is a 64-bit
+    difference); [off_bits = k < 64] is the code with the difference passed
+    through a k-bit unsigned type, e.g. a helper
+    [static inline unsigned buf_offset(buf, addr) { return addr - buf->addr.addr; }]
+    used for the hit test in [get_cache_buf] / [bury_cache_buffer] and for the
+    data pointer in [do_read32] / [do_read64].  Everything else is shared with
+    the definitions above ([ReadCacheProofs.run_op_w_64]: at 64 bits this IS
+    [run_op]). *)
+Definition buf_offset (off_bits : N) (s : slot) (a_addr : N) : N :=
+  wsub a_addr (addr s) mod 2 ^ off_bits.
+
+Definition hit_test_w (off_bits : N) (s : slot) (a_as a_addr : N) : bool :=
+  (buf_offset off_bits s a_addr <? size s) && (as_ s =? a_as).
+
+Definition find_slot_w (off_bits : N) (c : cache) (a_as a_addr : N) : option ix :=
+  if hit_test_w off_bits (get_slot c I0) a_as a_addr then Some I0
+  else if hit_test_w off_bits (get_slot c I1) a_as a_addr then Some I1
+  else if hit_test_w off_bits (get_slot c I2) a_as a_addr then Some I2
+  else if hit_test_w off_bits (get_slot c I3) a_as a_addr then Some I3
+  else None.
+
+Definition bury_w (off_bits : N) (c : cache) (a_as a_addr : N) : cache :=
+  match find_slot_w off_bits c a_as a_addr with
+  | Some s => {| slots := slots c; rg := bury_ring (rg c) s |}
+  | None => c
+  end.
+
+Definition read_slot_w (off_bits : N) (s : slot) (a_addr n : N) : rres :=
+  match ptr s with
+  | None => RRecursion
+  | Some d =>
+      if size s <? buf_offset off_bits s a_addr + n then ROOB
+      else cut d (buf_offset off_bits s a_addr) n
+  end.
+
+Section WithCallbackW.
+
+Variable get_page : N -> N -> option (N * N * list byte).
+Variable off_bits : N.
+
+Definition get_cache_buf_re_w (run_inner : cache -> list op -> cache * list event)
+           (c : cache) (a_as a_addr : N) (inner : list op)
+  : cache * list event * gres :=
+  match find_slot_w off_bits c a_as a_addr with
+  | Some s => let '(c', r) := finish c s in (c', [], r)
+  | None =>
+      let '(c1, ev1, s) := miss_begin c a_as a_addr in
+      let '(c2, ev2) := run_inner c1 inner in
+      let '(c3, ev3, r) := miss_end c2 s (get_page a_as a_addr) in
+      (c3, ev1 ++ ev2 ++ ev3, r)
+  end.
+
+Definition gres_to_rres_w (c : cache) (r : gres) (a_addr n : N) : rres :=
+  match r with
+  | GOk s => read_slot_w off_bits (get_slot c s) a_addr n
+  | GFail => RFail
+  | GRecursion => RRecursion
+  end.
+
+Fixpoint run_op_w (c : cache) (o : op) {struct o} : cache * list event * outcome :=
+  let run_inner :=
+    (fix run_inner (c : cache) (l : list op) {struct l} : cache * list event :=
+       match l with
+       | [] => (c, [])
+       | o :: l' =>
+           let '(c1, ev1, out) := run_op_w c o in
+           let ret := match out with
+                      | OutG r => [RetG r] | OutR r => [RetR r] | OutB => []
+                      end in
+           let '(c2, ev2) := run_inner c1 l' in
+           (c2, ev1 ++ ret ++ ev2)
+       end) in
+  match o with
+  | OGet a_as a_addr inner =>
+      let '(c', ev, r) := get_cache_buf_re_w run_inner c a_as a_addr inner in
+      (c', ev, OutG r)
+  | ORead a_as a_addr n inner =>
+      let '(c', ev, r) := get_cache_buf_re_w run_inner c a_as a_addr inner in
+      (c', ev, OutR (gres_to_rres_w c' r a_addr n))
+  | OBury a_as a_addr => (bury_w off_bits c a_as a_addr, [], OutB)
+  end.
+
+Fixpoint run_list_w (c : cache) (l : list op) {struct l} : cache * list event :=
+  match l with
+  | [] => (c, [])
+  | o :: l' =>
+      let '(c1, ev1, out) := run_op_w c o in
+      let ret := match out with
+                 | OutG r => [RetG r] | OutR r => [RetR r] | OutB => []
+                 end in
+      let '(c2, ev2) := run_list_w c1 l' in
+      (c2, ev1 ++ ret ++ ev2)
+  end.
+
+Fixpoint run_w (c : cache) (ops : list op) : list (outcome * cache) * list event :=
+  match ops with
+  | [] => ([], [])
+  | o :: ops' =>
+      let '(c1, ev1, out) := run_op_w c o in
+      let '(tr, ev2) := run_w c1 ops' in
+      ((out, c1) :: tr, ev1 ++ ev2)
+  end.
+
+End WithCallbackW.
+
 Definition flat_op (o : op) : bool :=
   match o with
   | OGet _ _ [] | ORead _ _ _ [] | OBury _ _ => true
@@ -332,11 +439,16 @@ Definition op_in_range (o : op) : Prop :=
 
 (** * A concrete callback (the one harness/rcache_drv.c installs)
 
-    addresses below 0x10000: 0x1000-byte pages; the last 0x1000 bytes of the
-    address space: one page ending exactly at 2^64; everything else:
-    0x100-byte regions.  Block number mod 8 = 5 (pages) / = 3 (small regions)
-    fails.  The byte at address [a] of space [as] is (a*13 + as*3 + 1) & 0xff. *)
-Definition synth_byte (a_as a : N) : byte := (a * 13 + a_as * 3 + 1) mod 256.
+    The layout depends on the low 16 bits of the address only, so that every
+    region has look-alikes 2^16, 2^31, 2^32, ... away: bit 15 clear: 0x1000-byte
+    pages, bit 15 set: 0x100-byte regions (the last one ends exactly at 2^64).
+    Page number mod 8 = 5 / small-region number mod 8 = 3 fails.  The bytes
+    depend on the whole address: the byte at [a] of space [as] is
+      (a*13 + as*3 + 1 + (a>>16)*7 + (a>>31)*5 + (a>>32)*11 + (a>>63)*17) & 0xff
+    (within a region consecutive bytes differ by 13). *)
+Definition synth_byte (a_as a : N) : byte :=
+  (a * 13 + a_as * 3 + 1 + (a / 2 ^ 16) * 7 + (a / 2 ^ 31) * 5 + (a / 2 ^ 32) * 11
+   + (a / 2 ^ 63) * 17) mod 256.
 
 (* consecutive bytes differ by 13 (mod 256); [v] is the first byte *)
 Fixpoint synth_bytes (v : byte) (n : nat) : list byte :=
@@ -345,11 +457,9 @@ Fixpoint synth_bytes (v : byte) (n : nat) : list byte :=
   | S n' => v :: synth_bytes ((v + 13) mod 256) n'
   end.
 
-Definition TOP : N := 0xfffffffffffff000.
-
 Definition synth_get_page (a_as a : N) : option (N * N * list byte) :=
   if W <=? a then None
-  else if (a <? 0x10000) || (TOP <=? a) then
+  else if (a / 0x8000) mod 2 =? 0 then
     let blk := a / 0x1000 in
     if blk mod 8 =? 5 then None
     else Some (blk * 0x1000, 0x1000, synth_bytes (synth_byte a_as (blk * 0x1000)) (N.to_nat 0x1000))
